@@ -212,6 +212,10 @@ pub struct Ctx {
     pub alive_before_gc: usize,
     /// frame depth at the first instruction of this run (top level of the line)
     pub base_frames: usize,
+    /// keep a copy of the global variables as of the last instruction boundary (session engines:
+    /// the caller decides from it which handed-out values no variable refers to any more)
+    pub keep_globals: bool,
+    pub last_globals: Vec<Object>,
 }
 
 impl Ctx {
@@ -248,6 +252,8 @@ impl Ctx {
             trace_lines: Vec::new(),
             alive_before_gc: 0,
             base_frames: 0,
+            keep_globals: false,
+            last_globals: Vec::new(),
         }
     }
 
@@ -705,6 +711,10 @@ fn step_inner(ctx: &mut Ctx, info: &StepInfo) -> StepAction {
             return fail(ctx, Injected::Guard(kind));
         }
     };
+    if ctx.keep_globals {
+        ctx.last_globals.clear();
+        ctx.last_globals.extend_from_slice(info.globals);
+    }
     if ctx.pending_audit {
         // a shipped collection ran inside the previous instruction
         ctx.pending_audit = false;
